@@ -370,7 +370,9 @@ func (r *RegimeDef) InCategoryRates(cat cbc.Code) validation.Rule {
 // is inside the list of known codes.
 func (r *RegimeDef) InCategories() validation.Rule {
 	if r == nil {
-		return validation.Skip
+		// Nothing to compare with. A skip rule would also skip the code's
+		// own validation, so use a rule that simply accepts.
+		return validation.By(func(any) error { return nil })
 	}
 	cats := make([]cbc.Code, len(r.Categories))
 	for i, c := range r.Categories {
